@@ -1,7 +1,7 @@
 (** C01 — no lost wake-ups (sequential level: every waker action is atomic, but may land at
     every race window of a poll: after register, between dequeue and flag-clear, at pop exit,
     inside child polls, between polls).  See DESIGN.md for what is not covered. *)
-From FB Require Import Base Syntax World SlotMap Fub Unbounded Step WorldProofs UnboundedProofs StepProofs WakeProofs Reach.
+From FB Require Import Base Syntax World SlotMap Fub Unbounded Step WorldProofs UnboundedProofs StepProofs WakeProofs Reach GroupWake.
 
 (** a poll of a group that returns Pending has registered the caller's waker [t] as the most
     recent one, and ends with an empty ready queue or with [t] invoked during the call *)
@@ -71,3 +71,43 @@ Theorem C01_group_loop :
   winv (cnt (blks (groups u'))) None w' /\ fu_ok mrg u' /\ loop_post mrg u u' sp.
 Proof. exact fu_poll_next_spec. Qed.
 Print Assumptions C01_group_loop.
+
+(** the unbounded collections poll every group before returning Pending.  In every reachable
+    state of every history, for FuturesUnordered ([mrg = false]) and MergeUnbounded: after a
+    poll with task waker [t] returned Pending, every group that still holds something has [t]
+    registered as its most recent waker, and its ready queue is empty or [t] was invoked during
+    the call ([K] = [J /\ E] of the per-group theorems) — nothing woken in any group is left
+    behind without the task being notified *)
+Theorem C01_pending_arms_every_group :
+  forall (P : params), params_ok P ->
+  forall (ops : list op) (mrg : bool) (u : fu) (t : nat) (i : injection),
+  st_coll (reach P ops) = (if mrg then CMu u else CFu u) ->
+  let '(u', sp, w') := fu_poll_next P mrg u t (begin_op i (st_world (reach P ops))) in
+  sp = SPending -> forall g, In g (groups u') -> fub_len g <> 0 -> K (blk g) t w'.
+Proof. exact pending_arms_every_group. Qed.
+Print Assumptions C01_pending_arms_every_group.
+
+(** the same for the loop from any cursor position and any number of remaining iterations:
+    the groups not yet visited are the first [n] in cursor order *)
+Theorem C01_group_loop_visits_every_group :
+  forall (P : params) (mrg : bool) (n : nat) (u : fu) (t : nat) (w : world),
+  winv (cnt (blks (groups u))) None w -> fu_ok mrg u -> groups u <> [] ->
+  NoDup (blks (groups u)) -> n <= length (groups u) ->
+  Forall (Kg t w) (skipn n (rot u)) ->
+  let '(u', sp, w') := fu_loop P mrg n u t w in
+  NoDup (blks (groups u')) /\ (sp = SPending -> Forall (Kg t w') (groups u')).
+Proof. exact fu_loop_visits. Qed.
+Print Assumptions C01_group_loop_visits_every_group.
+
+(** the groups of one collection never share a waker block (each is created with a fresh one),
+    so polling one group cannot disturb the registration of another *)
+Theorem C01_group_blocks_distinct :
+  forall (P : params), params_ok P -> forall (ops : list op), nd (st_coll (reach P ops)).
+Proof. exact reachable_nd. Qed.
+Print Assumptions C01_group_blocks_distinct.
+
+Theorem C01_other_group_poll_keeps_registration :
+  forall (P : params) (b t : nat) (mrg : bool) (g : fub) (t' : nat) (w : world),
+  blk g <> b -> K b t w -> K b t (snd (poll_group P mrg g t' w)).
+Proof. exact K_poll_group_other. Qed.
+Print Assumptions C01_other_group_poll_keeps_registration.
